@@ -197,6 +197,7 @@ structure E2eState where
   ctlCtx : Option String := none
   protectedSession : Bool := false     -- AUTH TLS accepted and handshake done in the current connection
   serverGone : Bool := false           -- the server has dropped the current control connection
+  ctlPeer : String := ""               -- address the current control connection was opened to
 
 /-- C11 / C18 monitors on the tokens of one operation -/
 def monitorE2e (cfg : E2eCfg) (st : E2eState) (op : SOp) (seg : List String) : Option String :=
@@ -328,6 +329,39 @@ def monitorE2e (cfg : E2eCfg) (st : E2eState) (op : SOp) (seg : List String) : O
          else if f.getD 5 "" != "1" then some "peer-saw-no-end-of-file" else none
        | _, _ => none)
     else none
+  else if cfg.prop = "C06" then
+    if op.name != "get" && op.name != "put" && op.name != "list" then none
+    else
+      let dcs := seg.filterMap fun t => match t.splitOn ":" with | ["dc", d, ep, _] => (if d.toNat? != some st.ctlFd then some ep else none) | _ => none
+      let setupReply := gen.head?
+      if st.w.base.mode == .passive then
+        match setupReply with
+        | none => none
+        | some (c, t) =>
+          if c ≥ 400 then (if dcs.isEmpty then none else some "connected-after-refused-setup")
+          else
+            let want : Option String :=
+              if st.w.base.rfc then (Spec.epsvOf t).map fun p => s!"{st.ctlPeer}#{p}"
+              else match Spec.pasvOf t with
+                | some ([a, b, c, d], p) => some s!"{a}.{b}.{c}.{d}#{p}"
+                | _ => none
+            match want with
+            | none => if dcs.isEmpty && ret = "thr:ftp" then none else some "malformed-passive-reply-not-refused"
+            | some ep => if dcs = [ep] then none else some "connect-target-is-not-the-negotiated-endpoint"
+      else
+        match (seg.find? fun t => t.startsWith "db:"), (seg.findSome? fun t => if t.startsWith "o0:q:" then bytesOfHex (t.drop 5).toString else none) with
+        | some db, some line =>
+          let got := (db.splitOn ":").getD 3 ""
+          let adv : Option String :=
+            if line.take 5 = str "EPRT " then
+              (Spec.decodeEprtArg (line.drop 5)).map fun (_, a, p) => s!"{String.ofList (a.map fun b => if b = 58 then ';' else Char.ofNat b)}#{p}"
+            else if line.take 5 = str "PORT " then
+              match Spec.decodePortArg (line.drop 5) with
+              | some ([a, b, c, d], p) => some s!"{a}.{b}.{c}.{d}#{p}"
+              | _ => none
+            else none
+          if adv != some got then some "advertised-endpoint-is-not-the-listening-socket" else none
+        | _, _ => none
   else if cfg.prop = "C13" then
     let stTok := ((seg.find? fun t => t.startsWith "st:").getD "").splitOn ":"
     let conn := stTok.getD 1 "0" = "1"
@@ -392,7 +426,8 @@ def e2eOp (args : List String) (impl : String) : Option Verdict := do
         let fd := (seg.findSome? fun t => match t.splitOn ":" with | ["ds", n] => n.toNat? | _ => none).getD 0
         let ssl := seg.findSome? fun t => match t.splitOn ":" with | ["sn", n, _] => n.toNat? | _ => none
         let ctx := seg.findSome? fun t => match t.splitOn ":" with | ["sn", _, c] => some c | _ => none
-        st := { st with ctlFd := fd, ctlSsl := ssl, ctlCtx := ctx, protectedSession := false }
+        let peerEp := (seg.findSome? fun t => match t.splitOn ":" with | ["dc", _, ep, "1"] => some ((ep.splitOn "#").headD "") | _ => none).getD st.ctlPeer
+        st := { st with ctlFd := fd, ctlSsl := ssl, ctlCtx := ctx, protectedSession := false, ctlPeer := peerEp }
       let seg' := seg.filter fun t => !isSummary t || t.startsWith "played:"
       let nPlayed := (seg.filter fun t => t.startsWith "o0:q:").length + (if op.name = "connect" then 1 else 0)
       let goneNow := st.serverGone || ((op.groups.take nPlayed).any (·.closes))
